@@ -299,7 +299,7 @@ def _real_one(sc):
     if sc["max_ts"] is not None:
         kw["max_timesteps"] = sc["max_ts"]
     cfg = {"base_stop": sc["base_stop"], "spread": sc["spread"], "scores": table, "collectors_defined": [["col0", 1]],
-           "sleep_us": 700}
+           "sleep_us": 700, "isolation_probe": True}
     try:
         W.reset(cfg)
         v1 = B.grid_search(W.SearchModel, dict(raw), W.score_fn, processes=1, **kw)
